@@ -12,12 +12,25 @@
 //   - conservation at steady states, after quiescence by bounded steps:
 //     down + no spool:   handed == conn_down_no_spool delta
 //     connection up:     handed == received + slow_conn delta
+//
+// Runtime address updates (Table.UpdateDestination {"addr": ...}, what `modDest <route> <idx> addr=`
+// does):
+//   - blackhole-readdr: the destination sits on a black hole with traffic beyond all buffers and is
+//     re-pointed at a healthy endpoint B while traffic continues: every Dispatch keeps returning
+//     (stall detector); afterwards the steady-state identity holds on B;
+//   - pause-readdr: a healthy endpoint A stops reading for a moment (a backlog builds on the
+//     connection), the destination is re-pointed at B, A reads again. Both endpoints stayed healthy,
+//     so after quiescence handed == received(A) + received(B) + slow_conn (old + new destination key).
+//
+// The close-mid-stream scripts also run with spool=true (own spool directory): stall detector and
+// second route only, C07 owns conservation with spooling.
 package main
 
 import (
 	"bytes"
 	"fmt"
 	"os"
+	"path/filepath"
 	"regexp"
 	"runtime"
 	"strings"
@@ -43,10 +56,16 @@ type scase struct {
 	Flush       int    `json:"flush_ms"`
 	Rate        int    `json:"throttle_bytes_per_s,omitempty"`
 	CloseAt     int    `json:"close_after_bytes,omitempty"`
+	SpoolSleep  int    `json:"spoolsleep_us,omitempty"`         // > 0: the destination has spool=true
+	Traffic     bool   `json:"traffic_during_update,omitempty"` // pause-readdr: the address update happens mid-traffic
 }
 
 var scripts = []string{"absent", "refuse-then-appear", "blackhole", "blackhole-then-read", "throttled-slow", "throttled-fast", "healthy", "healthy-tinybuf",
-	"abort-early", "abort-late", "graceful-early", "graceful-late", "appear-then-abort", "healthy-many-dispatchers", "firstmatch-first-down"}
+	"abort-early", "abort-late", "graceful-early", "graceful-late", "appear-then-abort", "healthy-many-dispatchers", "firstmatch-first-down",
+	// runtime address updates
+	"blackhole-readdr", "pause-readdr",
+	// the close-mid-stream scripts with spool=true (stall detector only)
+	"abort-early-spool", "abort-late-spool", "graceful-early-spool", "graceful-late-spool"}
 
 func gen(idx int) scase {
 	r := mon.NewRng(mon.Seed(), 6, uint64(idx))
@@ -73,11 +92,35 @@ func gen(idx int) scase {
 		c.ConnBuf, c.IoBuf = r.PickInt([]int{0, 1}), 64
 	case "healthy-many-dispatchers":
 		c.Dispatchers = 8
+	case "blackhole-readdr":
+		// the connection's writer must be stuck in a socket write when the address changes: traffic beyond
+		// io buffer + connection queue + the kernel's socket buffers
+		c.LineLen = 1000
+		if c.Lines < 24000 {
+			c.Lines = 24000 // ~12 MB
+		}
+	case "pause-readdr":
+		// a backlog must sit in the connection's queue when the address changes: a queue (connbuf > 0) and,
+		// while the endpoint pauses, more traffic than io buffer + queue + kernel socket buffers take
+		c.LineLen = 1000
+		c.ConnBuf = r.PickInt([]int{100, 1000, 5000})
+		c.Traffic = r.Bool()
 	}
 	if strings.Contains(c.Script, "early") {
 		c.CloseAt = r.Range(1, 5000)
 	} else if strings.Contains(c.Script, "late") || c.Script == "appear-then-abort" {
 		c.CloseAt = r.Range(200000, 1500000)
+	}
+	if strings.HasSuffix(c.Script, "-spool") {
+		// whatever the relay does with the lines of the dead connection (it feeds them to the spool one by one,
+		// spoolsleep apart, in the background) must not hold up a hand-off: many short lines before the close
+		// and a long spoolsleep make anything that waits for it visible to the stall detector
+		c.SpoolSleep = 2000
+		if strings.Contains(c.Script, "late") {
+			c.LineLen = 100
+			c.ConnBuf = r.PickInt([]int{1000, 10000})
+			c.CloseAt = r.Range(20, 35) * c.Lines // 3600-6400 lines (quick) reach the endpoint before it closes
+		}
 	}
 	return c
 }
@@ -187,7 +230,10 @@ type runner struct {
 	t     *table.Table
 	capB  *countRoute
 	ep    *mon.Endpoint
+	epB   *mon.Endpoint // address updates: the endpoint the destination is re-pointed at
+	key   string        // route key
 	dkey  string
+	dkeyB string // the destination's counter key once it points at epB
 	seq   int64
 	disp  []*dispState
 	stall int32 // set when a stall was confirmed: dispatchers must not be waited for
@@ -195,14 +241,27 @@ type runner struct {
 	stopM chan struct{}
 	wgM   sync.WaitGroup
 	cmd   string
+	cmd2  string // what the address update amounts to on the admin port
 
 	scanMu    sync.Mutex
 	scans     map[*mon.ConnRec]*connScan
 	malformed string
 }
 
+var t0 = time.Now()
+
+func (r *runner) dbg(what string) {
+	if os.Getenv("VERIF_DEBUG") != "" {
+		fmt.Printf("DEBUG %7.2fs case %d %s: %s\n", time.Since(t0).Seconds(), r.c.Index, r.c.Script, what)
+	}
+}
+
 func (r *runner) witness() map[string]interface{} {
-	return map[string]interface{}{"case": r.c, "route_cmd": r.cmd}
+	w := map[string]interface{}{"case": r.c, "route_cmd": r.cmd}
+	if r.cmd2 != "" {
+		w["later_cmd"] = r.cmd2
+	}
+	return w
 }
 
 func (r *runner) monitor() {
@@ -309,14 +368,20 @@ type connScan struct {
 	tail []byte
 }
 
-func (r *runner) countLines() (n int, malformed string) {
+func (r *runner) countLines() (n int, malformed string) { return r.countLinesOn(r.ep) }
+
+func (r *runner) countLinesOn(eps ...*mon.Endpoint) (n int, malformed string) {
 	r.scanMu.Lock()
 	defer r.scanMu.Unlock()
 	if r.scans == nil {
 		r.scans = map[*mon.ConnRec]*connScan{}
 	}
 	prefix := []byte(fmt.Sprintf("c06.%d.l", r.c.Index))
-	for _, c := range r.ep.Conns() {
+	var conns []*mon.ConnRec
+	for _, ep := range eps {
+		conns = append(conns, ep.Conns()...)
+	}
+	for _, c := range conns {
 		sc := r.scans[c]
 		if sc == nil {
 			sc = &connScan{}
@@ -435,11 +500,14 @@ func runCase(res *mon.Result, c scase) {
 	}
 	mode := mon.Mode{}
 	startDown := false
-	switch c.Script {
+	script := strings.TrimSuffix(c.Script, "-spool")
+	switch script {
 	case "absent", "refuse-then-appear", "appear-then-abort":
 		startDown = true
-	case "blackhole", "blackhole-then-read":
+	case "blackhole", "blackhole-then-read", "blackhole-readdr":
 		mode = mon.Mode{NoRead: true, RcvBuf: 4096}
+	case "pause-readdr":
+		mode = mon.Mode{RcvBuf: 65536}
 	case "throttled-slow", "throttled-fast":
 		mode = mon.Mode{Rate: c.Rate, RcvBuf: 8192}
 	case "abort-early", "abort-late":
@@ -453,10 +521,23 @@ func runCase(res *mon.Result, c scase) {
 		r.ep = mon.NewEndpoint(mode)
 	}
 	defer r.ep.Close()
-	r.t = mon.NewTable("none", "none", false, "/nonexistent-spool")
+	spoolDir, spoolOpts := "/nonexistent-spool", "spool=false"
+	if c.SpoolSleep > 0 {
+		spoolDir = filepath.Join(mon.Scratch(), fmt.Sprintf("c06spool%d", c.Index))
+		os.MkdirAll(spoolDir, 0755)
+		spoolOpts = fmt.Sprintf("spool=true spoolsleep=%d", c.SpoolSleep)
+	}
+	r.t = mon.NewTable("none", "none", false, spoolDir)
 	key := fmt.Sprintf("c06r%d", c.Index)
+	r.key = key
 	r.dkey = mon.DestKey(key, r.ep.Addr)
-	r.cmd = fmt.Sprintf("addRoute sendAllMatch %s  %s spool=false flush=%d reconn=40 connbuf=%d iobuf=%d", key, r.ep.Addr, c.Flush, c.ConnBuf, c.IoBuf)
+	r.cmd = fmt.Sprintf("addRoute sendAllMatch %s  %s %s flush=%d reconn=40 connbuf=%d iobuf=%d", key, r.ep.Addr, spoolOpts, c.Flush, c.ConnBuf, c.IoBuf)
+	if strings.HasSuffix(script, "-readdr") {
+		r.epB = mon.NewEndpoint(mon.Mode{})
+		defer r.epB.Close()
+		r.dkeyB = mon.DestKey(key, r.epB.Addr)
+		r.cmd2 = fmt.Sprintf("modDest %s 0 addr=%s", key, r.epB.Addr)
+	}
 	downFirst := ""
 	if c.Script == "firstmatch-first-down" {
 		// the first destination (in configured order) accepts the lines and is down without spool; a second,
@@ -475,14 +556,19 @@ func runCase(res *mon.Result, c scase) {
 	r.wgM.Add(1)
 	go r.monitor()
 	defer func() {
+		defer r.dbg("case end")
 		close(r.stopM)
 		r.wgM.Wait()
 		if atomic.LoadInt32(&r.stall) == 0 {
 			done := make(chan struct{})
 			go func() { r.t.DelRoute(key); close(done) }()
+			wait := 10 * time.Second
+			if c.SpoolSleep > 0 {
+				wait = 3 * time.Second // shutdown waits for the background redo ingest (lines x spoolsleep)
+			}
 			select {
 			case <-done:
-			case <-time.After(10 * time.Second): // shutdown flushes into a dead socket; not part of C06
+			case <-time.After(wait): // shutdown flushes into a dead socket; not part of C06
 			}
 		}
 	}()
@@ -496,8 +582,11 @@ func runCase(res *mon.Result, c scase) {
 		return h, true
 	}
 	allKeys := []string{mon.KeyDestDropSlowConn(r.dkey), mon.KeyDestDropNoConn(r.dkey), mon.KeyDestOut(r.dkey)}
+	if r.epB != nil {
+		allKeys = append(allKeys, mon.KeyDestDropSlowConn(r.dkeyB), mon.KeyDestDropNoConn(r.dkeyB), mon.KeyDestOut(r.dkeyB))
+	}
 
-	switch c.Script {
+	switch script {
 	case "firstmatch-first-down":
 		if !r.online("fm") { // probe lines do not start with "c06.": they go to the healthy second destination
 			res.Inconclusive(fmt.Sprintf("case %d: second destination did not come online", c.Index))
@@ -601,11 +690,114 @@ func runCase(res *mon.Result, c scase) {
 		if _, ok := phase(c.Lines, nil); !ok {
 			return
 		}
+	case "blackhole-readdr":
+		r.ep.WaitAccepted(1, 2000)
+		time.Sleep(100 * time.Millisecond) // let the relay loop adopt the connection (no probe can be seen)
+		d0 := mon.NewDeltas(allKeys...)
+		r.dbg("start")
+		if _, ok := phase(c.Lines, nil); !ok {
+			return
+		}
+		r.dbg("phase 1 done")
+		if d0.Get(mon.KeyDestDropSlowConn(r.dkey)) > 0 {
+			res.Count("readdr_cases_blackhole_queue_full_at_update", 1)
+		}
+		// the operator re-points the destination at a healthy endpoint while traffic continues
+		var upd chan error
+		if _, ok := phase(c.Lines/2, func() { upd = r.readdress() }); !ok {
+			return
+		}
+		r.dbg("phase 2 done")
+		if !r.awaitUpdate(upd) {
+			return
+		}
+		r.dbg("update returned")
+		// from here on the destination has a healthy endpoint: the steady-state identity holds on it.
+		// (the connection to the black hole is still there; nothing is asserted about what sits on it)
+		r.ep, r.epB = r.epB, r.ep
+		r.dkey, r.dkeyB = r.dkeyB, r.dkey
+		if !r.online("fence") { // one connection is FIFO: once a probe arrived, everything handed before it has
+			res.Inconclusive(fmt.Sprintf("case %d: no probe line arrived at the new endpoint", c.Index))
+			return
+		}
+		r.dbg("fence seen")
+		base, _ := r.countLines()
+		if base > 0 {
+			res.Count("readdr_new_endpoint_received_mid_traffic", 1)
+		}
+		d := mon.NewDeltas(allKeys...)
+		h, ok := phase(c.Lines/2, nil)
+		if !ok {
+			return
+		}
+		r.dbg("phase 3 done")
+		r.steadyUp("after the address update from a black hole to a healthy endpoint", h, base, d)
+		r.dbg("steady done")
+	case "pause-readdr":
+		if !r.online("h") {
+			res.Inconclusive(fmt.Sprintf("case %d: destination did not come online", c.Index))
+			return
+		}
+		r.quiesceProbes()
+		base, _ := r.countLinesOn(r.ep, r.epB)
+		d := mon.NewDeltas(allKeys...)
+		// (the relay's first dial and its reconnect ticker can both connect at start-up: the endpoint serves all of them)
+		accA := r.ep.Accepted()
+		r.ep.SetMode(mon.Mode{NoRead: true}) // healthy, but not reading for a moment
+		h1, ok := phase(c.Lines, nil)
+		if !ok {
+			return
+		}
+		r.dbg("phase 1 done")
+		// how many lines sit in the connection's queue right now (the relay's own gauge; evidence only)
+		backlog := mon.GaugeValue("dest=" + r.dkey + ".unit=Metric.what=numBuffered")
+		r.dbg(fmt.Sprintf("queued on the connection at the update: %d", backlog))
+		upd := r.readdress()
+		resumed := make(chan struct{})
+		go func() {
+			time.Sleep(300 * time.Millisecond)
+			r.ep.SetMode(mon.Mode{}) // ... and reads again
+			close(resumed)
+		}()
+		if !c.Traffic {
+			<-resumed
+		}
+		h2, ok := phase(c.Lines/4, nil)
+		<-resumed
+		r.dbg("phase 2 done")
+		if !ok || !r.awaitUpdate(upd) {
+			return
+		}
+		r.dbg("update returned")
+		r.steadyReaddr(h1+h2, base, d, backlog > 0, accA)
+		r.dbg("steady done")
 	case "abort-early", "abort-late", "graceful-early", "graceful-late":
 		r.ep.WaitAccepted(1, 2000)
 		_, ok := phase(c.Lines, func() {})
 		if !ok {
 			return
+		}
+		if c.SpoolSleep > 0 {
+			// spooling: only the stall detector and the second route (C07 owns conservation with a spool).
+			// Most lines of a full-speed burst are slow_conn drops: keep the traffic going until the endpoint has
+			// seen enough bytes to close, and for one more round after that
+			for round := 0; round < 6 && r.ep.Accepted() < 2; round++ {
+				if _, ok := phase(c.Lines, nil); !ok {
+					return
+				}
+			}
+			r.dbg("closed mid-traffic")
+			if _, ok := phase(c.Lines, nil); !ok {
+				return
+			}
+			r.dbg("traffic done")
+			if r.ep.Accepted() < 2 {
+				res.Count("spool_cases_without_a_close", 1)
+				res.Count("dispatch_calls_timed", total)
+				return // not counted as non-trivial
+			}
+			res.Count("spool_cases_closed_mid_traffic", 1)
+			break
 		}
 		// afterwards the endpoint behaves: steady state on the re-established connection
 		r.ep.SetMode(mon.Mode{})
@@ -677,6 +869,108 @@ func (r *runner) steadyUpAllowing(handed int, recvBase int, d *mon.Deltas, pre i
 	}
 }
 
+// readdress re-points the destination at endpoint B the way `modDest <route> 0 addr=<B>` does (the admin command
+// ends in this call; the harness' command lock is not held across a call that may hang).
+func (r *runner) readdress() chan error {
+	ch := make(chan error, 1)
+	go func() { ch <- r.t.UpdateDestination(r.key, 0, map[string]string{"addr": r.epB.Addr}) }()
+	return ch
+}
+
+// awaitUpdate waits for the address update to return. An update that does not return is no verdict by
+// itself: if it wedged the relay loop, the stall detector sees the hand-offs that are stuck behind it.
+func (r *runner) awaitUpdate(upd chan error) bool {
+	if upd == nil {
+		r.res.Inconclusive(fmt.Sprintf("case %d: the address update was never issued", r.c.Index))
+		return false
+	}
+	for i := 0; i < 300; i++ {
+		select {
+		case err := <-upd:
+			if err != nil {
+				r.res.Violate("harness-setup", "UpdateDestination: "+err.Error(), r.witness())
+				return false
+			}
+			if !r.epB.WaitAccepted(1, 500) {
+				r.res.Inconclusive(fmt.Sprintf("case %d: the destination could not connect to the new address", r.c.Index))
+				return false
+			}
+			return true
+		case <-time.After(100 * time.Millisecond):
+			if atomic.LoadInt32(&r.stall) != 0 {
+				return false
+			}
+		}
+	}
+	r.res.Inconclusive(fmt.Sprintf("case %d: the address update has not returned after 30s (no hand-off was stuck)", r.c.Index))
+	return false
+}
+
+// steadyReaddr: endpoint A paused and resumed, the destination was re-pointed at B in between; both endpoints
+// were healthy all along, so every line handed off was received by one of them or counted as slow_conn drop
+// (under the destination's old or new key).
+func (r *runner) steadyReaddr(handed int, base int, d *mon.Deltas, backlogged bool, accA int) {
+	slowSum := func() int64 {
+		return d.Get(mon.KeyDestDropSlowConn(r.dkey)) + d.Get(mon.KeyDestDropSlowConn(r.dkeyB))
+	}
+	var gotA, gotB int
+	var sum int64
+	still, last := 0, int64(-1)
+	ok := false
+	// quiescence: the sum is reached, or nothing moved for 2000 consecutive steps (>= 6 s, 12 x the longest flush period)
+	for step := 0; step < 20000 && still < 2000; step++ {
+		r.flushDest()
+		gotA, _ = r.countLinesOn(r.ep)
+		gotB, _ = r.countLinesOn(r.epB)
+		sum = int64(gotA+gotB-base) + slowSum()
+		if sum >= int64(handed) {
+			ok = true
+			break
+		}
+		if sum == last {
+			still++
+		} else {
+			still, last = 0, sum
+		}
+		time.Sleep(3 * time.Millisecond)
+	}
+	slow := slowSum()
+	noconn := d.Get(mon.KeyDestDropNoConn(r.dkey)) + d.Get(mon.KeyDestDropNoConn(r.dkeyB))
+	r.res.Count("lines_handed", handed)
+	r.res.Count("lines_received", gotA+gotB-base)
+	r.res.Count("lines_dropped_slow_conn", int(slow))
+	r.res.Count("readdr_lines_received_old_endpoint", gotA-base)
+	r.res.Count("readdr_lines_received_new_endpoint", gotB)
+	if backlogged && gotB > 0 {
+		r.res.Count("readdr_cases_with_backlog_on_old_connection", 1)
+	} else {
+		r.res.Count("readdr_cases_without_backlog", 1)
+	}
+	if os.Getenv("VERIF_DEBUG") != "" {
+		fmt.Printf("DEBUG case %d %s: handed=%d gotA=%d gotB=%d slow=%d noconn=%d backlogged=%v ok=%v still=%d\n", r.c.Index, r.c.Script, handed, gotA-base, gotB, slow, noconn, backlogged, ok, still)
+	}
+	if _, bad := r.countLinesOn(r.ep, r.epB); bad != "" {
+		w := r.witness()
+		w["line"] = bad
+		r.res.Violate("malformed-line", "endpoint received a line that was never handed off: "+bad, w)
+		return
+	}
+	if r.ep.Accepted() != accA || r.epB.Accepted() != 1 {
+		r.res.Inconclusive(fmt.Sprintf("case %d: the destination reconnected during the scenario (%d->%d / %d connections accepted): not the steady state", r.c.Index, accA, r.ep.Accepted(), r.epB.Accepted()))
+		return
+	}
+	if !ok && still < 2000 {
+		r.res.Inconclusive(fmt.Sprintf("case %d: lines still trickling in after 20000 steps", r.c.Index))
+		return
+	}
+	if sum != int64(handed) || noconn != 0 {
+		w := r.witness()
+		w["handed"], w["received_old_endpoint"], w["received_new_endpoint"], w["slow_conn"], w["conn_down_no_spool"] = handed, gotA-base, gotB, slow, noconn
+		w["backlog_on_old_connection_at_update"] = backlogged
+		r.res.Violate("uncounted-loss-readdr", fmt.Sprintf("endpoint paused, destination re-pointed, endpoint resumed (both healthy): handed %d, old endpoint received %d, new endpoint %d, slow_conn %d, conn_down_no_spool %d -> %d lines disappeared uncounted", handed, gotA-base, gotB, slow, noconn, int64(handed)-sum-noconn), w)
+	}
+}
+
 // quiesceProbes lets probe lines drain so that baselines are stable.
 func (r *runner) quiesceProbes() {
 	last := -1
@@ -693,9 +987,11 @@ func (r *runner) quiesceProbes() {
 
 func main() {
 	res := mon.NewResult("C06")
-	res.Rule = "endpoint scripts {absent, refuse-then-appear, blackhole(+then read), throttled slow/fast, healthy (+tiny buffers, +8 dispatchers), abortive/graceful close early/late, appear-then-abort} x generated connbuf/iobuf/flush/line length/dispatcher count; every Table.Dispatch call is timed by the stall detector; conservation identities at the steady states; non-trivial = the case ran to the end with its monitors active; distinct = (script, connbuf, iobuf, dispatchers)"
+	res.Rule = "endpoint scripts {absent, refuse-then-appear, blackhole(+then read), throttled slow/fast, healthy (+tiny buffers, +8 dispatchers), abortive/graceful close early/late (spool=false, and spool=true with spoolsleep=2ms for the stall detector only), appear-then-abort, runtime address update away from a black hole mid-traffic (blackhole-readdr), runtime address update while a healthy endpoint pauses reading with a backlog queued on its connection (pause-readdr)} x generated connbuf/iobuf/flush/line length/dispatcher count; every Table.Dispatch call is timed by the stall detector; conservation identities at the steady states; non-trivial = the case ran to the end with its monitors active; distinct = (script, connbuf, iobuf, dispatchers)"
 	res.Assume("'never stalls' is restated as: each of the N hand-offs returned within the stall bound (2s quick / 5s thorough, normal < 1ms), confirmed by two stack samples of a parked goroutine; anything else long is inconclusive")
 	res.Assume("identities are asserted only in steady states (connection up throughout a phase / endpoint absent throughout a phase), never across a transition")
+	res.Assume("pause-readdr: an address update between two endpoints that both stay healthy is not a transition between steady states: the old connection stays up and keeps delivering what was queued on it, so handed == received(old) + received(new) + slow_conn (old + new destination key); the verdict needs the sum to have stood still for 2000 quiescence steps, and no reconnect during the scenario")
+	res.Assume("address updates go through Table.UpdateDestination (the call `modDest <route> <idx> addr=` ends in), not through the command parser: the harness' command lock must not be held across a call that may hang")
 	n := mon.N(len(scripts), len(scripts)*14)
 	var wg sync.WaitGroup
 	sem := make(chan struct{}, 3)
